@@ -1441,6 +1441,9 @@ pub fn enforce_same_attribute_proviso(w: &mut World) {
   if let Some(r) = w.resolver.clone() {
     for t in r.map.values().chain(r.types_map.values()).chain(r.resolve_types.values()) {
       let t = final_target(w, t);
+      // reached through the resolver as a module: neither attributes nor
+      // source phase for the imports that name it by url
+      only_source.insert(t.clone(), false);
       can.insert(t, false);
     }
   }
